@@ -299,7 +299,7 @@ def kernel_sample(ctx, model, limit_chars=30000, max_cases=60):
 def load_known(pid):
     path = os.path.join(ROOT, "known_findings.json")
     try:
-        data = json.load(open(path))
+        data = json.load(open(path, encoding="utf-8"))
     except OSError:
         return []
     return [e for e in data.get("findings", []) if e.get("property") == pid]
